@@ -122,6 +122,11 @@ func (viso *VirtualISO) init() error {
 			return fmt.Errorf("getTitleID failed: %w", err)
 		}
 
+		// "XXXXYYYYY" becomes product code "XXXX-YYYYY" in a 32-byte field
+		if len(gameCode) < 4 || len(gameCode) > 31 {
+			return fmt.Errorf("unexpected TITLE_ID length (%d)", len(gameCode))
+		}
+
 		volumeName = ps3ModeVolumeName
 	} else {
 		_, volumeName = filepath.Split(viso.root)
